@@ -341,7 +341,12 @@ func (ap *AP) T(axes ...int) (retVal AP, a []int, err error) {
 		if axes[0] == 0 {
 			return
 		}
-		strides[0], strides[1] = 1, 1
+		// the long axis keeps its stride (a step-sliced vector does not have unit stride)
+		if currentShape[0] > 1 {
+			strides[0], strides[1] = 1, currentStride[0]
+		} else {
+			strides[0], strides[1] = currentStride[1], 1
+		}
 		shape[0], shape[1] = currentShape[1], currentShape[0]
 	default:
 		copy(shape, currentShape)
